@@ -25,13 +25,13 @@ func newTx(store *store) *Tx {
 // key are serialized: the first one fills the placeholder in (newKey), the others then find the
 // key it created.
 func (tx *Tx) lockKey(key string) *metadata {
-	return tx.acquire(key, true, true)
+	return tx.acquire(key, true, true, true)
 }
 
 // rLockKey returns the record stored under key, read-locked by this transaction, or an empty
 // record when there is no such key.
 func (tx *Tx) rLockKey(key string) *metadata {
-	return tx.acquire(key, false, false)
+	return tx.acquire(key, false, false, true)
 }
 
 // lockKeys locks every key a multi-key command is going to use, in one global order (by name), so
@@ -52,7 +52,8 @@ func (tx *Tx) lockKeys(write []string, read ...string) {
 	}
 	sort.Strings(keys)
 	for _, key := range keys {
-		tx.acquire(key, mode[key], true)
+		// locking ahead is not an access: the command's own writeKey / readKey counts it
+		tx.acquire(key, mode[key], true, false)
 	}
 }
 
@@ -65,7 +66,7 @@ func (s *store) lookup(key string) (*metadata, bool) {
 	return m, ok
 }
 
-func (tx *Tx) acquire(key string, write, placeholder bool) *metadata {
+func (tx *Tx) acquire(key string, write, placeholder, access bool) *metadata {
 	s := tx.store
 	for {
 		s.mu.RLock()
@@ -105,7 +106,7 @@ func (tx *Tx) acquire(key string, write, placeholder bool) *metadata {
 			if write && !m.writeable {
 				panic("nodis: key " + key + " is read-locked by this transaction and cannot be write-locked")
 			}
-			if m.isOk() {
+			if access && m.isOk() {
 				atomic.AddInt64(&m.count, 1)
 			}
 			return m
@@ -138,7 +139,7 @@ func (tx *Tx) acquire(key string, write, placeholder bool) *metadata {
 			continue
 		}
 		tx.lockedMetas = append(tx.lockedMetas, m)
-		if m.isOk() {
+		if access && m.isOk() {
 			atomic.AddInt64(&m.count, 1)
 		}
 		return m
@@ -161,7 +162,7 @@ func (tx *Tx) newKey(m *metadata, key string, newFn func() ds.Value) *metadata {
 	if newFn == nil {
 		return m.empty()
 	}
-	m = tx.lockKey(key)
+	m = tx.acquire(key, true, true, false)
 	verifPoint("newKey.beforePublish")
 	m.key = ds.NewKey(key, 0)
 	m.setValue(newFn())
